@@ -155,10 +155,32 @@ def w_model(schema, vals):
 # ---------------------------------------------------------------------------------------------
 # building library objects from value dicts, and comparing parsed objects with value dicts
 # ---------------------------------------------------------------------------------------------
+FORMS = [False, 0]      # [enabled, running counter]: values handed to the model in other accepted representations
+
+
+def _reform(kind, v):
+    """another accepted representation of a field value: byte strings as memoryview, names as tuple / one-shot
+    encoded bytes / memoryview of the encoding"""
+    from symex.api import mview
+    FORMS[1] += 1
+    k = FORMS[1]
+    if kind == 'bytes':
+        return mview(bwrap(blist(v))) if k % 2 else v
+    if kind == 'name':
+        # (re-iterable forms only: the harness encodes a model several times; one-shot iterators are C01's subject)
+        return env.name_in_form(v, ('tuple', 'wire', 'mview')[k % 3])
+    return v
+
+
 def build(cls, schema, vals):
     m = cls()
     for name, t, kind, arg in schema:
         v = vals.get(name)
+        if v is not None and FORMS[0]:
+            if kind in ('bytes', 'name'):
+                v = _reform(kind, v)
+            elif kind == 'rep' and arg[0] in ('bytes', 'name'):
+                v = [_reform(arg[0], x) for x in v]
         if v is None:
             if kind not in ('rep', 'map'):
                 setattr(m, name, None)
